@@ -482,7 +482,9 @@ theorem polyline_ge_chord {N : List K → K} {d : ℕ} (hN : IsSeminorm d N) (pt
   Geomdl.polyline_ge_chord hN pts hne hP
 
 /-- **`length_curve` is at least the chord between the first and the last sampled point**, for every
-    non-empty list of sample parameters (`evalpts = curveGrid`). -/
+    non-empty list of sample parameters (`evalpts = curveGrid`).  This is the lower bound that holds for whatever
+    the cached `evalpts` are – `operations.length_curve` reads `obj.evalpts`, and after `evaluate(start=, stop=)` the
+    cache covers only the sub-interval `[start, stop]`: the chord is then the one between `C(start)` and `C(stop)`. -/
 theorem curve_samples_ge_chord {N : List K → K} {d : ℕ} (hN : IsSeminorm d N) (p : ℕ) (Ul : List K)
     (P : List (List K)) (hC : CurveWF p d Ul P) (ks : List K) (hne : ks ≠ []) :
     N (vsub (curvePoint p (fnOf Ul) P (ks.getD (ks.length - 1) 0)) (curvePoint p (fnOf Ul) P (ks.getD 0 0)))
@@ -493,7 +495,11 @@ theorem curve_samples_ge_chord {N : List K → K} {d : ℕ} (hN : IsSeminorm d N
     clamped curve (`ClampedOk`), samples at `linspace(U_p, U_n, num)` as `evaluate` takes them, at least
     two samples and a domain longer than the tolerance constant of `linspace` (otherwise `evalpts` is
     the single start point and the length is `0`); the chord is the one from the first to the last
-    control point. -/
+    control point.  MODEL SCOPE: the samples are the whole domain `linspace(U_p, U_n, num)` with the current sample
+    size, i.e. `obj.evalpts` as a plain `evaluate()` (or the lazy first access) fills it.  The real `length_curve` reads
+    the CACHED `evalpts`: after `c.evaluate(start=.4, stop=.5)` it returns the length of that piece only, which can be
+    below the end-to-end chord (quadratic `(0,0),(0,4),(3,4)`: 0.517 < 5) – for a partial cache only
+    `curve_samples_ge_chord` applies. -/
 theorem length_curve_ge_chord {N : List K → K} {d : ℕ} (hN : IsSeminorm d N) (p : ℕ)
     (Ul : List K) (P : List (List K)) (hC : CurveWF p d Ul P) (hcl : ClampedOk p (fnOf Ul) P.length)
     (num : ℕ) (hnum : 2 ≤ num) (tol : K) (htol : tol < |fnOf Ul p - fnOf Ul P.length|) :
@@ -562,7 +568,9 @@ theorem polyline_le_control_polygon {N : List K → K} {d : ℕ} (hN : IsSeminor
 
 /-- **The approximate length of a non-rational curve is never more than its control-polygon length**:
     `length_curve` of the points sampled at `linspace(U_p, U_n, num)` – every sample size, every value
-    of `linspace`'s tolerance constant – for a curve of degree `≥ 1` that is clamped at the end. -/
+    of `linspace`'s tolerance constant – for a curve of degree `≥ 1` that is clamped at the end.  (Model scope: the
+    whole-domain sample; for a partially evaluated cache – `evaluate(start=, stop=)` – the upper bound still holds by
+    `polyline_le_control_polygon`, which is stated for ANY increasing parameters of the closed domain.) -/
 theorem length_curve_le_control_polygon {N : List K → K} {d : ℕ} (hN : IsSeminorm d N) (p : ℕ) (hp : 1 ≤ p)
     (Ul : List K) (P : List (List K)) (hC : CurveWF p d Ul P)
     (hend : ∀ i, P.length ≤ i → i < P.length + p → fnOf Ul i = fnOf Ul P.length) (num : ℕ) (tol : K) :
@@ -617,7 +625,8 @@ theorem euclid_is_seminorm (d : ℕ) :
   ⟨euclid_isSeminorm d, distN_euclid d, euclidNorm_eq_sqrt_normSq d⟩
 
 /-- **Euclidean length, lower bound** (`length_curve_ge_chord` at `K := ℝ`, `N :=` Euclidean norm): the
-    approximate length of a clamped non-rational curve is at least the Euclidean distance of its end points. -/
+    approximate length of a clamped non-rational curve is at least the Euclidean distance of its end points
+    (whole-domain sample with the current sample size – see the model-scope remark at `length_curve_ge_chord`). -/
 theorem length_curve_ge_chord_euclid (p d : ℕ) (Ul : List ℝ) (P : List (List ℝ)) (hC : CurveWF p d Ul P)
     (hcl : ClampedOk p (fnOf Ul) P.length) (num : ℕ) (hnum : 2 ≤ num) (tol : ℝ)
     (htol : tol < |fnOf Ul p - fnOf Ul P.length|) :
